@@ -102,6 +102,7 @@ def _check_main(run, P):
     _pair(run, P)
     _free(run, P)
     _table(run, P)
+    _regroup_classes(run, P)
 
 
 def _stack(run, P):
@@ -321,6 +322,38 @@ def _pair(run, P):
            why="assignments of an earlier call must not leak")
     if n < 4:
         raise AnalysisError("C18.pair: too few sites")
+
+
+def _regroup_classes(run, P):
+    """Handlers that regroup constants rebuild the node with its own class."""
+    E = P.cls(f"{MOD}._ExpressionCollapsingMapper")
+    want = {"map_sum": "Sum", "map_product": "Product", "map_min": "Min", "map_max": "Max",
+            "map_logical_and": "LogicalAnd", "map_logical_or": "LogicalOr",
+            "map_bitwise_and": "BitwiseAnd", "map_bitwise_or": "BitwiseOr",
+            "map_bitwise_xor": "BitwiseXor"}
+    passed = {}
+    for name, m in E.methods.items():
+        for x in ast.walk(m.node):
+            if isinstance(x, ast.Call) and dotted(x.func) == "self.map_commut_assoc" and len(x.args) == 2:
+                passed[name] = (dotted(x.args[1]), m)
+    n = 0
+    for name, (cls_, m) in sorted(passed.items()):
+        if name == "map_commut_assoc":
+            continue
+        n += 1
+        run.ob("C18.const", m, m.node, want.get(name) == cls_,
+               construct=f"{name} regroups with {cls_} (the class of the node it handles: {want.get(name)})",
+               why="a regrouped node rebuilt with another operator has another value")
+    for a, v in sorted(E.attrs.items()):
+        if a.startswith("map_") and isinstance(v, ast.Name) and v.id in passed:
+            n += 1
+            run.ob("C18.const", E, v, want.get(a) == passed[v.id][0],
+                   construct=f"{a} = {v.id}: {v.id} regroups with {passed[v.id][0]}, {a} handles "
+                             f"{want.get(a)} nodes",
+                   why="an alias to a handler that hard-codes the node class rebuilds every "
+                       "regrouped max() as a min()")
+    if n < 2:
+        raise AnalysisError("C18: regrouping handlers not found")
 
 
 def _rebound(fn_node, name):
